@@ -37,15 +37,7 @@ Definition nav_link_ok (l : navlink) (c : counts) : bool :=
 (* FORD stops before generating anything when there is no source file *)
 Definition wf_counts (c : counts) : bool := 0 <? n_files c.
 
-(* the known region: the front page's link to lists/files.html when that page is not written *)
-Definition is_index_files (l : navlink) : bool :=
-  str_eqb (nl_template l) (s "index.html") &&
-  match nl_target l with TList p => str_eqb p (s "files.html") | TSingle _ => false end.
-Definition region_index_files (l : navlink) (c : counts) : bool :=
-  is_index_files l && f_incl_src c && (n_files c + n_extra_files c <=? 1).
-
 (* what a run is expected to show: per nav link "emitted", per list page "written" *)
 Definition model_emitted (c : counts) : list bool := map (fun l => nl_cond l c) nav_links.
 Definition model_pages (c : counts) : list bool := map (fun p => snd p c) list_pages.
 Definition all_links_ok (c : counts) : bool := forallb (fun l => nav_link_ok l c) nav_links.
-Definition in_region (c : counts) : bool := existsb (fun l => region_index_files l c && nl_cond l c) nav_links.
